@@ -461,6 +461,9 @@ class Crash(BaseException):
     """the writer process is killed here"""
 
 
+DROP_ATTR = object()
+
+
 class OpRecorder:
     """h5py-like module wrapper.  Every mutating file operation (create/truncate a file,
     set an attribute, create_dataset, resize, item assignment, close) performed through it
@@ -472,7 +475,10 @@ class OpRecorder:
     dead, the exception unwinds through the real code's with/try/finally/except handlers and
     every file operation they perform (a close() in a finally) DOES take effect."""
 
-    def __init__(self, h5, crash_at=None, on_crash=None, fault=None):
+    def __init__(self, h5, crash_at=None, on_crash=None, fault=None, attr_map=None):
+        # attr_map: attribute name -> value written instead (a file written by another OQuPy
+        # version), or DROP_ATTR: the attribute is never written (not counted as an operation)
+        self.attr_map = dict(attr_map or {})
         self.h5 = h5
         self.crash_at = crash_at
         self.on_crash = on_crash
@@ -522,6 +528,12 @@ class _PAttrs:
         return self._a[k]
 
     def __setitem__(self, k, v):
+        if k in self._r.attr_map:
+            v = self._r.attr_map[k]
+            if v is DROP_ATTR:
+                if self._r.dead:
+                    raise Crash()
+                return
         self._r._pre()
         self._a[k] = v
         self._r._post(("attr", k, bool(v) if isinstance(v, (bool, np.bool_)) else None))
